@@ -124,6 +124,11 @@ func (s *Scheduler) Cancel() {
 	s.taskRunner.Cancel()
 }
 
+// Canceled returns true if Cancel was called on the scheduler
+func (s *Scheduler) Canceled() bool {
+	return atomic.LoadInt32(&s.cancelled) == 1
+}
+
 // Finish finishes scheduler's TaskRunner
 func (s *Scheduler) Finish() {
 	s.taskRunner.Finish()
